@@ -26,6 +26,8 @@ struct Task {
     status_masked: bool,
     ins: Vec<String>,
     pool: Option<usize>,
+    /// a later command deliberately removes this task's output directory
+    out_removed: bool,
 }
 
 const SIZES: [usize; 12] = [0, 1, 2, 100, 4095, 4096, 4097, 8192, 65535, 65536, 65537, 200_000];
@@ -99,7 +101,25 @@ fn gen_tasks(t: &mut Tape, logdir: &str, big: bool) -> Vec<Task> {
             // the shell itself must die from the signal: a child killing only itself is an ordinary exit status
             cmd = format!("{} ; kill -{} $$", cmd, sig);
         }
-        tasks.push(Task { id, plan, code, signal, out, rsp, cmd, stdout_hidden, status_masked, ins, pool });
+        tasks.push(Task { id, plan, code, signal, out, rsp, cmd, stdout_hidden, status_masked, ins, pool, out_removed: false });
+    }
+    if t.chance(30) {
+        // a directory that is created for one step, removed by the next step's command and needed again by a third:
+        // output directories must exist whenever a command starts, not just the first time
+        let q = |s: &str| format!("'{}'", s.replace('\'', "'\\''"));
+        let base = tasks.len();
+        let d = format!("churn{}", base);
+        let mk = |id: usize, out: &str, ins: Vec<String>, tail: &str| {
+            let cmd = format!("{} agent {} {} '1:10' 0 {} -{}", q(&exe), q(logdir), id, q(out), tail);
+            Task { id, plan: "1:10".into(), code: 0, signal: None, out: out.to_string(), rsp: None, cmd, stdout_hidden: false, status_masked: false, ins, pool: None, out_removed: false }
+        };
+        let mut a = mk(base, &format!("{}/first", d), vec![], "");
+        a.out_removed = true;
+        let b = mk(base + 1, &format!("mid{}", base), vec![a.out.clone()], &format!(" && cp {}/first keep{} && rm -rf {}", d, base, d));
+        let c = mk(base + 2, &format!("{}/second", d), vec![b.out.clone()], "");
+        tasks.push(a);
+        tasks.push(b);
+        tasks.push(c);
     }
     tasks
 }
@@ -315,7 +335,7 @@ impl C16 {
                 Some(dry) => v("argv", format!("task {}: argv under n2 {} differs from argv under `/bin/sh -c` {}", t.id, log["argv"], dry["argv"])),
                 None => v("argv-reference", format!("task {}: reference run of {:?} produced no argv", t.id, t.cmd)),
             }
-            if !failing.iter().any(|f| f.id == t.id) && !std::path::Path::new(&t.out).exists() {
+            if !failing.iter().any(|f| f.id == t.id) && !t.out_removed && !std::path::Path::new(&t.out).exists() {
                 v("output-missing", format!("task {} succeeded but its output {} is missing", t.id, t.out));
             }
         }
